@@ -76,7 +76,11 @@ type c10env struct {
 	seq       int
 	r         *gen.R
 	def       *mnode // the tree node that is the default logger right now
+	optOnce   slog.Opt
 }
+
+// c10optOnce counts the New calls that were handed the application's one WithWriter option value
+var c10optOnce int
 
 var c10ts = time.Date(2031, 7, 9, 21, 4, 5, 123456789, time.FixedZone("P", 5*3600+1800))
 
@@ -245,6 +249,16 @@ func (e *c10env) ops() []c10op {
 				as := attrsFor("newkv")
 				opts = append(opts, toArgs(as)...)
 				post = append(post, func(n *mnode) { n.attrs = append(n.attrs, as...) })
+			}
+			if r.P(30) {
+				// ONE option value, built once by the application (a default option list), is handed to every New that
+				// takes this branch: each logger made with it has writers of its own
+				if e.optOnce == nil {
+					e.optOnce = slog.WithWriter(e.pool[0])
+				}
+				opts = append(opts, e.optOnce)
+				post = append(post, func(n *mnode) { n.normal = []string{"W0"} })
+				c10optOnce++
 			}
 			ent := t.e.New(append([]any{name}, opts...)...)
 			if c := t.child(name); c != nil {
@@ -898,6 +912,7 @@ func c10tree(c *Ctx) {
 			c.R.Add("operations", 1)
 			if op.name == "Close() on a logger of the tree that owns no writers" {
 				c.R.Max("Close_calls_on_loggers_of_the_tree_that_own_no_writers", int64(c10closedInTree))
+				c.R.Max("New_calls_handed_the_one_WithWriter_option_value_of_the_application", int64(c10optOnce))
 			}
 			if op.name == "Close() a throwaway logger that never got writers" {
 				c.R.Add("Close_calls_on_a_logger_that_never_got_writers", 1)
